@@ -100,14 +100,28 @@ def parseTerm (toks : List String) : Option Term :=
 def parseTerms (t : String) : Option (List Term) :=
   (strLists t).mapM parseTerm
 
+/-- `Artifact.load` through an artifact whose filter terms make `hdf.load` RAISE for the stored node (a Series the draw
+selection does not name, F29): the exception leaves `Artifact.load` before `self._cache[key] = data`, so nothing is
+cached - a later load sees whatever the file holds then -/
+def loadVia (sh : Node → String) (a : Art) (k : Key) : Art × Out :=
+  let (a', o) := load a k
+  match o with
+  | .data n => if sh n = "err" && (lookup a.cache k).isNone then (a, .rejected) else (a', o)
+  | _ => (a', o)
+
 def obsLoads (sh : Node → String) (a : Art) (ks : List Key) : Art × List String :=
   ks.foldl (fun (acc : Art × List String) k =>
-    let (a', o) := load acc.1 k
+    let (a', o) := loadVia sh acc.1 k
     (a', acc.2 ++ [showKey k ++ "=" ++ (match o with | .data n => sh n | _ => "err")])) (a, [])
 
 def doOp (s : St) (o : Op) : St × String :=
-  let (fa, out) := s.fa.step (.op o)
-  ({ s with fa := fa }, showOut s out)
+  match o with
+  | .load k =>
+    let (a', out) := loadVia (showView s.tables s.fa.terms) s.fa.art k
+    ({ s with fa := { s.fa with art := a' } }, showOut s out)
+  | _ =>
+    let (fa, out) := s.fa.step (.op o)
+    ({ s with fa := fa }, showOut s out)
 
 def step (s : St) : List String → St × String
   | ["data", id, "table", qc, rows, cols, emp, ser] =>
